@@ -1,6 +1,7 @@
 package core
 
 import (
+	"go/constant"
 	"go/token"
 	"go/types"
 	"sort"
@@ -21,6 +22,12 @@ type NilFacts map[ssa.Value]bool
 type contentOf struct{ ssa.Value }
 
 func (c contentOf) Name() string { return "*" + c.Value.Name() }
+
+// boolOf is the fact key for "this boolean SSA value (a phi of constants: a named condition) is
+// true/false on this path"; the map value is the truth value.
+type boolOf struct{ ssa.Value }
+
+func (b boolOf) Name() string { return "?" + b.Value.Name() }
 
 // CellFact returns the known nilness of the content of a local cell or global.
 func (f NilFacts) CellFact(cell ssa.Value) (isNil, known bool) {
@@ -294,6 +301,40 @@ func nilWalk(fn *ssa.Function, from map[Edge]bool, after ssa.Instruction, cut ma
 					delete(f, pf.p)
 				}
 			}
+			// boolean phis: the value selected by the edge just taken, when it is a constant (or an
+			// already known boolean)
+			if idx >= 0 {
+				type bf struct {
+					p     *ssa.Phi
+					known bool
+					v     bool
+				}
+				var bfs []bf
+				for _, in := range it.b.Instrs {
+					phi, ok := in.(*ssa.Phi)
+					if !ok {
+						break
+					}
+					if bt, ok := phi.Type().Underlying().(*types.Basic); !ok || bt.Kind() != types.Bool {
+						continue
+					}
+					e := phi.Edges[idx]
+					if k, ok := e.(*ssa.Const); ok && k.Value != nil && k.Value.Kind() == constant.Bool {
+						bfs = append(bfs, bf{phi, true, constant.BoolVal(k.Value)})
+					} else if v, ok := f[boolOf{e}]; ok {
+						bfs = append(bfs, bf{phi, true, v})
+					} else {
+						bfs = append(bfs, bf{phi, false, false})
+					}
+				}
+				for _, x := range bfs {
+					if x.known {
+						f[boolOf{x.p}] = x.v
+					} else {
+						delete(f, boolOf{x.p})
+					}
+				}
+			}
 		}
 		key := stateKey(ids, it.b.Index, f, lastStored, it.start > 0)
 		if seen[key] {
@@ -353,6 +394,19 @@ func nilWalk(fn *ssa.Function, from map[Edge]bool, after ssa.Instruction, cut ma
 		last := it.b.Instrs[len(it.b.Instrs)-1]
 		if ifi, ok := last.(*ssa.If); ok {
 			a := NormCond(ifi.Cond)
+			if a.Op == token.ILLEGAL {
+				if bv, known := f[boolOf{a.Val}]; known {
+					// cond == value XOR Negated
+					idx := 1
+					if bv != a.Negated {
+						idx = 0
+					}
+					if !cut[Edge{it.b, idx}] {
+						work = append(work, item{it.b.Succs[idx], it.b, f.clone(), 0, cloneLast(lastStored)})
+					}
+					continue
+				}
+			}
 			if a.Op == token.EQL && (IsNil(a.X) || IsNil(a.Y)) {
 				v := a.X
 				if IsNil(a.X) {
